@@ -19,6 +19,7 @@ func init() {
 
 func checkC08(c *Ctx) {
 	p := c.P
+	checkC08ClauseConfig(c)
 	stmtT := p.Named(pkgGorm, "Statement")
 	dbT := p.Named(pkgGorm, "DB")
 	schemaT := p.Named(pkgSchema, "Schema")
@@ -479,6 +480,7 @@ func checkC08(c *Ctx) {
 				fwd := gs.Reaches(store.Pos(), func(n ast.Node) bool { return containsNode(n, filter) })
 				rr.Check(!back && fwd && store.Pos() < filter.Pos(), sdq.Name(), "ORDER(regroup before filter)", store.Pos(), "regrouping precedes the filter", "the filter is added before the user's OR conditions are regrouped: the filter itself is swallowed into the group / precedence is wrong")
 				_, hasAnd := findRegroup(p, sdq)
+				rr.Check(regroupScansAll(sdq, store), sdq.Name(), "regroup scan examines every member", store.Pos(), "no break/return before the OR unit is found", "the scan for a lone OR unit stops early (at a member that is not the OR unit): `(a AND b) OR c` is not regrouped and the soft-delete filter binds to `c` only - soft-deleted rows matching the first unit are visible")
 				rr.Check(hasAnd, sdq.Name(), "regroup builds one AND unit of all user expressions", store.Pos(), "clause.And(where.Exprs...)", "the regrouping does not wrap all user expressions into one AND unit")
 			}
 			checkSoftDeletePair(p, rr, sdq)
@@ -590,6 +592,101 @@ func allSuffix(ps []string, suf string) bool {
 }
 
 
+// regroupScansAll: the loop that looks for a lone OR unit examines every member: the only way out of it before
+// the end is the break/return that follows the regroup store itself.
+func regroupScansAll(f *FuncSrc, store *ast.AssignStmt) bool {
+	if store == nil {
+		return false
+	}
+	parents := parentMap(f.Body)
+	// anchor: the statement whose enclosing `if` is the OR-unit test.  Direct form: the store itself.  Flag
+	// form (`found := false; for ... { if <or test> { found = true; break } }; if found { store }`): the
+	// assignment that sets the flag.
+	anchor := ast.Node(store)
+	for cur := ast.Node(store); cur != nil; cur = parents[cur] {
+		if ifs, ok := parents[cur].(*ast.IfStmt); ok {
+			if set := flagSetter(f, ifs.Cond); set != nil {
+				anchor = set
+			}
+			break
+		}
+	}
+	var loop *ast.RangeStmt
+	var storeIf *ast.IfStmt
+	for cur := anchor; cur != nil; cur = parents[cur] {
+		if ifs, ok := parents[cur].(*ast.IfStmt); ok && storeIf == nil {
+			storeIf = ifs
+		}
+		if rg, ok := parents[cur].(*ast.RangeStmt); ok {
+			loop = rg
+			break
+		}
+	}
+	if loop == nil {
+		return false
+	}
+	ok := true
+	ast.Inspect(loop.Body, func(n ast.Node) bool {
+		switch x := n.(type) {
+		case *ast.FuncLit:
+			return false
+		case *ast.BranchStmt:
+			if x.Tok.String() == "break" || x.Tok.String() == "goto" {
+				if storeIf == nil || !(storeIf.Body.Pos() <= x.Pos() && x.End() <= storeIf.Body.End()) {
+					ok = false
+				}
+			}
+		case *ast.ReturnStmt:
+			if storeIf == nil || !(storeIf.Body.Pos() <= x.Pos() && x.End() <= storeIf.Body.End()) {
+				ok = false
+			}
+		}
+		return true
+	})
+	return ok
+}
+
+// flagSetter: cond is a plain boolean local that is declared false and set to true at exactly one place;
+// returns that assignment (nil otherwise).
+func flagSetter(f *FuncSrc, cond ast.Expr) ast.Node {
+	id, ok := unparen(cond).(*ast.Ident)
+	if !ok {
+		return nil
+	}
+	info := f.Pkg.TypesInfo
+	obj := info.Uses[id]
+	if obj == nil {
+		return nil
+	}
+	var set ast.Node
+	n, bad := 0, false
+	ast.Inspect(rootFunc(f).Body, func(x ast.Node) bool {
+		as, ok := x.(*ast.AssignStmt)
+		if !ok || len(as.Lhs) != len(as.Rhs) {
+			return true
+		}
+		for i, l := range as.Lhs {
+			lid, ok := l.(*ast.Ident)
+			if !ok || (info.Defs[lid] != obj && info.Uses[lid] != obj) {
+				continue
+			}
+			switch v, _ := unparen(as.Rhs[i]).(*ast.Ident); {
+			case v != nil && v.Name == "true":
+				n++
+				set = as
+			case v != nil && v.Name == "false":
+			default:
+				bad = true
+			}
+		}
+		return true
+	})
+	if bad || n != 1 {
+		return nil
+	}
+	return set
+}
+
 // findRegroup recognises the "regroup lone-OR conditions" idiom in f: inside an `if` that type-asserts a
 // member of the WHERE expressions to clause.OrConditions, the entry Clauses["WHERE"] is stored back; hasAnd
 // reports that the new expression list is clause.And(<all previous expressions>...).
@@ -611,6 +708,34 @@ func findRegroup(p *Program, f *FuncSrc) (store *ast.AssignStmt, hasAnd bool) {
 			}
 			return true
 		})
+		if !mentionsOr {
+			// flag form: the condition is a local set to true only inside an `if` that tests for the OR unit
+			if set := flagSetter(f, ifs.Cond); set != nil {
+				par := parentMap(f.Body)
+				for cur := set; cur != nil && !mentionsOr; cur = par[cur] {
+					if up, ok := par[cur].(*ast.IfStmt); ok {
+						ast.Inspect(up.Cond, func(x ast.Node) bool {
+							if ta, ok := x.(*ast.TypeAssertExpr); ok && ta.Type != nil {
+								if tv, ok := info.Types[ta.Type]; ok && types.Identical(tv.Type, orT) {
+									mentionsOr = true
+								}
+							}
+							return true
+						})
+						if up.Init != nil {
+							ast.Inspect(up.Init, func(x ast.Node) bool {
+								if ta, ok := x.(*ast.TypeAssertExpr); ok && ta.Type != nil {
+									if tv, ok := info.Types[ta.Type]; ok && types.Identical(tv.Type, orT) {
+										mentionsOr = true
+									}
+								}
+								return true
+							})
+						}
+					}
+				}
+			}
+		}
 		if !mentionsOr {
 			return true
 		}
